@@ -1510,6 +1510,23 @@ func funcSetpathWithAllocator(v any, args []any) any {
 	return setpath(v, args[0], args[1], args[2].(allocator))
 }
 
+// Used in compiler#compileQueryUpdate for constant paths. On failure, reports
+// the error of evaluating the path like path/1 in _assign/2 does.
+func funcSetpathWithPathCheck(v any, args []any) any {
+	u := setpath(v, args[0], args[1], nil)
+	if _, ok := u.(error); ok {
+		w := v
+		for _, k := range args[0].([]any) {
+			if w = funcIndex2(nil, w, k); w != nil {
+				if _, ok := w.(error); ok {
+					return w
+				}
+			}
+		}
+	}
+	return u
+}
+
 func setpath(v, p, n any, a allocator) any {
 	path, ok := p.([]any)
 	if !ok {
